@@ -231,6 +231,91 @@ theorem revive_restores_dependents_and_live_dmo (s : State) (ct x : Nat) (es' : 
     obtain ⟨hd, ge', hfg', hgl', _, hmem⟩ := hm g ge hg hfg hgk hgl
     exact ⟨re', ge', hf', hd, hfg', hgl', hmem⟩
 
+/-! ## what the bin keeps: memberships of groups that still exist, and the cascade mark -/
+
+/-- A delete stashes the direct memberships: every group in the deleted entry's directmemberof
+is in its recycled_directmemberof afterwards — unless the same request deleted that group too. -/
+theorem delete_stashes_memberships {s : State} (hi : Inv s) {ct : Nat} {ids : List Nat}
+    {es' : List Entry} {n : Option Nat} (h : apply s ct (.delete ids) = .ok es' n) {x : Nat}
+    {e : Entry} (hfe : find s.es x = some e) (hel : e.st = .live) (hx : x ∈ ids) :
+    ∃ e', find es' x = some e' ∧
+      ∀ g ∈ e.dmo, g ∈ e'.rdmo ∨ ∃ ge', find es' g = some ge' ∧ ge'.st = .recycled :=
+  delete_stash hi h hfe hel hx
+
+/-- For as long as an entry stays in the recycle bin — through any history of creates, deletes,
+revives of other entries and purges at any clock readings — it keeps its cascade mark, and it
+keeps the recorded membership of every group that stayed a live group all along. -/
+theorem memberships_and_mark_kept_in_bin {s : State} (hi : Inv s) {x : Nat} {e : Entry}
+    (hx : find s.es x = some e) (hr : e.st = .recycled) (steps : List (Nat × Op))
+    (hbin : Always (InBin x) s steps) :
+    ∃ e1, find (run s steps).es x = some e1 ∧ e1.st = .recycled ∧ e1.casc = e.casc ∧
+      ∀ g ∈ e.rdmo, Always (LiveGroupIn g) s steps → g ∈ e1.rdmo :=
+  kept_while_in_bin steps hi hx hr hbin
+
+/-- **Returning with its direct memberships of groups that still exist.**  An entry that was a
+direct member of `g` is deleted; any history follows during which it stays in the bin and `g`
+stays a live group; then its revive succeeds.  Afterwards the entry is live, `g` lists it and
+its directmemberof names `g`. -/
+theorem membership_returns_after_revive {s0 : State} (hi : Inv s0) {ct : Nat} {ids : List Nat}
+    {es1 : List Entry} {n : Option Nat} (hdel : apply s0 ct (.delete ids) = .ok es1 n)
+    {x g : Nat} {e : Entry} (hx : find s0.es x = some e) (hl : e.st = .live) (hxi : x ∈ ids)
+    (hg : g ∈ e.dmo) (steps : List (Nat × Op))
+    (hbin : Always (InBin x) (next s0 ct (.delete ids)) steps)
+    (hgl : Always (LiveGroupIn g) (next s0 ct (.delete ids)) steps)
+    {ct2 : Nat} {es2 : List Entry} {n2 : Option Nat}
+    (hrev : apply (run (next s0 ct (.delete ids)) steps) ct2 (.revive x) = .ok es2 n2) :
+    ∃ e2 ge2, find es2 x = some e2 ∧ e2.st = .live ∧ g ∈ e2.dmo ∧
+      find es2 g = some ge2 ∧ ge2.st = .live ∧ x ∈ ge2.member := by
+  have hnext : next s0 ct (.delete ids) = { s0 with es := es1, maxTs := txnTs s0 ct } := by
+    unfold next; rw [hdel]; simp [commits]
+  have hi1 : Inv (next s0 ct (.delete ids)) := inv_next hi ct _
+  obtain ⟨e1, hfe1, hstash⟩ := delete_stash hi hdel hx hl hxi
+  have hfe1' : find (next s0 ct (.delete ids)).es x = some e1 := by rw [hnext]; exact hfe1
+  obtain ⟨e1', hfe1'', hr1⟩ := hbin.head
+  rw [hfe1'] at hfe1''
+  cases hfe1''
+  have hg1 : g ∈ e1.rdmo := by
+    rcases hstash g hg with h1 | ⟨ge', hfg, hst⟩
+    · exact h1
+    · obtain ⟨ge2, hfg2, hl2, _⟩ := hgl.head
+      rw [hnext] at hfg2
+      simp only at hfg2
+      rw [hfg] at hfg2
+      cases hfg2
+      rw [hst] at hl2; cases hl2
+  obtain ⟨ef, hfef, hrf, _, hkeep⟩ := kept_while_in_bin steps hi1 hfe1' hr1 hbin
+  obtain ⟨gef, hfg, hgl', hgk'⟩ := Always.last steps _ hgl
+  have hmx := find_some_mem hfef
+  obtain ⟨_, _, hm⟩ := revive_restores_dependents_and_live_dmo _ ct2 x es2 n2 hrev
+  obtain ⟨re', ge', h1, h2, h3, h4, h5⟩ :=
+    hm x ef hfef (by simp [inR, hrf, hmx.2]) g gef (hkeep g hg1 hgl) hfg hgk' hgl'
+  obtain ⟨_, hr'⟩ := revive_restores_dependents_and_live_dmo _ ct2 x es2 n2 hrev
+  obtain ⟨⟨_, e2, _, _, hfe2, hl2⟩, _⟩ := revive_restores_dependents_and_live_dmo _ ct2 x es2 n2 hrev
+  rw [h1] at hfe2
+  cases hfe2
+  exact ⟨re', ge', h1, hl2, h2, h3, h4, h5⟩
+
+/-- **Returning with its cascade-deleted dependents.**  `c` refers to `x`; `x` is deleted (so `c`
+is, carrying the cascade mark); any history follows during which both stay in the bin; then the
+revive of `x` succeeds.  Afterwards `c` is live and refers to `x` again. -/
+theorem dependent_returns_after_revive {s0 : State} (hi : Inv s0) {ct : Nat} {ids : List Nat}
+    {es1 : List Entry} {n : Option Nat} (hdel : apply s0 ct (.delete ids) = .ok es1 n)
+    {x c : Nat} {e ce : Entry} (hx : find s0.es x = some e) (hl : e.st = .live) (hxi : x ∈ ids)
+    (hc : find s0.es c = some ce) (hcl : ce.st = .live) (hcr : ce.refers = some x)
+    (steps : List (Nat × Op))
+    (hbin : Always (InBin c) (next s0 ct (.delete ids)) steps)
+    {ct2 : Nat} {es2 : List Entry} {n2 : Option Nat}
+    (hrev : apply (run (next s0 ct (.delete ids)) steps) ct2 (.revive x) = .ok es2 n2) :
+    ∃ c2, find es2 c = some c2 ∧ c2.st = .live ∧ c2.refers = some x ∧ c2.casc = none := by
+  have hnext : next s0 ct (.delete ids) = { s0 with es := es1, maxTs := txnTs s0 ct } := by
+    unfold next; rw [hdel]; simp [commits]
+  have hi1 : Inv (next s0 ct (.delete ids)) := inv_next hi ct _
+  obtain ⟨c1, hfc1, hrc1, hcc1⟩ := delete_cascade hdel hx hl hxi hc hcl hcr
+  have hfc1' : find (next s0 ct (.delete ids)).es c = some c1 := by rw [hnext]; exact hfc1
+  obtain ⟨cf, hfcf, hrcf, hccf, _⟩ := kept_while_in_bin steps hi1 hfc1' hrc1 hbin
+  obtain ⟨_, hdep, _⟩ := revive_restores_dependents_and_live_dmo _ ct2 x es2 n2 hrev
+  exact hdep c cf hfcf hrcf (by rw [hccf, hcc1])
+
 /-! ## retention: recycled → tombstone -/
 
 /-- `purge_recycled` at a transaction stamped `ts` turns into tombstones exactly the recycled
